@@ -443,6 +443,7 @@ type Contract struct {
 }
 
 type MidAssert struct {
+	Callee string // when set, N is the occurrence of calls to this callee
 	N  int
 	Cl *Clause
 }
@@ -783,6 +784,21 @@ func (c *Contract) addClause(word, rest string) error {
 			return fmt.Errorf("expected: after N[-M] assert expr")
 		}
 		lo, hi := 0, 0
+		if !isDigit(f[0][0]) {
+			// after Callee#k assert expr : keyed by callee name and occurrence (robust against unrelated edits)
+			name, occ := f[0], 1
+			if i := strings.Index(f[0], "#"); i >= 0 {
+				name = f[0][:i]
+				occ, _ = strconv.Atoi(f[0][i+1:])
+			}
+			tags, body := parseTags(f[2])
+			e, err := ParseExpr(body)
+			if err != nil {
+				return err
+			}
+			c.Asserts = append(c.Asserts, &MidAssert{Callee: name, N: occ, Cl: &Clause{Tags: tags, E: e, Text: body}})
+			return nil
+		}
 		if i := strings.Index(f[0], "-"); i >= 0 {
 			lo, _ = strconv.Atoi(f[0][:i])
 			hi, _ = strconv.Atoi(f[0][i+1:])
